@@ -95,6 +95,13 @@ func c20Shared(gi *GroupInfo, seed string) (P, Q kyber.Point, k kyber.Scalar) {
 	Q = g.Point().Mul(g.Scalar().Add(a, g.Scalar().One()), B)
 	markVT(gi, P)
 	markVT(gi, Q)
+	if strings.HasSuffix(seed, "/identity") {
+		// the shared point is the identity: once as the result of arithmetic (P-P, internals not
+		// normalised), once from Null() - normalising code paths treat it specially
+		P = markVT(gi, g.Point().Sub(P, P))
+		Q = markVT(gi, g.Point().Null())
+		return
+	}
 	if strings.HasSuffix(seed, "/decoded") {
 		// the other way a shared value comes into being: decoded from bytes (points in affine form;
 		// the scalar, where the decoder takes it, from an UNREDUCED encoding k+q - a lazily reducing
@@ -222,30 +229,32 @@ func TestC20_Table(t *testing.T) {
 	}
 	// the same methods, each against itself, on shared values that were DECODED from bytes (scalar from an
 	// unreduced encoding where accepted): two goroutines in the same lazily-normalising accessor race
-	for gidx, gi := range groups {
-		if !mine(gidx) {
-			continue
-		}
-		gi := gi
-		seed := fmt.Sprintf("%d/decoded", envInt("VERIF_SEED", 1))
-		P0, Q0, k0 := c20Shared(gi, seed)
-		twin := c20PointMethods(gi, P0, Q0, k0)
-		gr, it := c20Iters(gi)
-		for i := range twin {
-			i := i
-			want := twin[i].f()
-			name := fmt.Sprintf("%s/decoded/%s", gi.Name, twin[i].name)
-			t.Run(name, func(t *testing.T) {
-				Pp, Qp, kp := c20Shared(gi, seed)
-				m := c20PointMethods(gi, Pp, Qp, kp)[i]
-				if mm := runConcurrent([]roMethod{m, m}, []string{want, want}, gr, it); mm != "" {
-					violationOrKnown(t, ev, "C20/"+gi.Name+"/result-mismatch", "concurrent read-only use changed a result: %s", mm)
-				}
-			})
-			ev.Case(true, name, "race-table-decoded:"+gi.Name)
+	for _, mode := range []string{"decoded", "identity"} {
+		for gidx, gi := range groups {
+			if !mine(gidx) {
+				continue
+			}
+			gi := gi
+			seed := fmt.Sprintf("%d/%s", envInt("VERIF_SEED", 1), mode)
+			P0, Q0, k0 := c20Shared(gi, seed)
+			twin := c20PointMethods(gi, P0, Q0, k0)
+			gr, it := c20Iters(gi)
+			for i := range twin {
+				i := i
+				want := twin[i].f()
+				name := fmt.Sprintf("%s/%s/%s", gi.Name, mode, twin[i].name)
+				t.Run(name, func(t *testing.T) {
+					Pp, Qp, kp := c20Shared(gi, seed)
+					m := c20PointMethods(gi, Pp, Qp, kp)[i]
+					if mm := runConcurrent([]roMethod{m, m}, []string{want, want}, gr, it); mm != "" {
+						violationOrKnown(t, ev, "C20/"+gi.Name+"/result-mismatch", "concurrent read-only use changed a result: %s", mm)
+					}
+				})
+				ev.Case(true, name, "race-table-"+mode+":"+gi.Name)
+			}
 		}
 	}
-	ev.Exhaustive("group x unordered pair of read-only methods (each pair on a fresh shared value built by arithmetic); group x method on shared values decoded from bytes")
+	ev.Exhaustive("group x unordered pair of read-only methods (each pair on a fresh shared value built by arithmetic); group x method on shared values decoded from bytes and on a shared identity")
 }
 
 // c20SchemeMethods: read-only uses of shared scheme objects.
